@@ -4,7 +4,9 @@ definition of the hand-written model each must equal.  `generate(repo)` returns 
 import os, re, json, hashlib
 import rsfront
 from rsfront import Unsupported
-from rs2lean import (Unit, StructInfo, FnTr, Val, Var, translate_fn, parse_ty, ty_of_tokens, lit_lean, lname, INT)
+from rs2lean import (Unit, StructInfo, FnTr, Val, Var, translate_fn, parse_ty, ty_of_tokens, lit_lean, lname, INT, const_eval,
+                     is_arr, TYCTX)
+import rs2lean
 
 XOSHIRO_FILES = ["splitmix64", "xoroshiro64star", "xoroshiro64starstar", "xoroshiro128plus", "xoroshiro128plusplus",
                  "xoroshiro128starstar", "xoshiro128plus", "xoshiro128plusplus", "xoshiro128starstar",
@@ -27,9 +29,18 @@ def prim_read_into(width):
         if dst[0] != "path" or len(dst[1]) != 1:
             raise Unsupported("read_*_into destination")
         v = tr.scope.get(dst[1][0])
+        ety = "u32" if width == 32 else "u64"
+        if v is not None and v.elems is None and v.view is None and is_arr(v.ty if v.ty is not None else tr.inferred.get(v.key)):
+            # a large (non-flattened) destination: all its elements are overwritten
+            ty = v.ty if v.ty is not None else tr.inferred.get(v.key)
+            if ty[1] is None:
+                tr.infer(v.key, ("arr", ety, ty[2]))
+            elif rs2lean.unwrap_ty(ty[1]) != ety:
+                raise Unsupported("read_*_into into an array of another element type")
+            tr.emit(f"let {v.lean} := ({'readU32s' if width == 32 else 'readU64s'} {src.atom()} {ty[2]}).toArray;")
+            return Val("()", "unit")
         if v is None or v.elems is None:
             raise Unsupported("read_*_into into a non-flattened array")
-        ety = "u32" if width == 32 else "u64"
         tr.infer(v.key, ("arr", ety, len(v.elems)))
         for i, x in enumerate(v.elems):
             tr.emit(f"let {x.lean} := {'le32At' if width == 32 else 'le64At'} {src.atom()} {i};")
@@ -76,8 +87,8 @@ def shape_of(struct_fields):
         return f"S4 {w}", {"s": (fs[0][1], ["s0", "s1", "s2", "s3"])}, ("S4", w)
     if names == ["s"] and fs[0][1] == ("arr", "u64", 8):
         return "S8", {"s": (fs[0][1], [f"s{i}" for i in range(8)])}, ("S8", 64)
-    if names == ["x", "y", "z", "w"] and all(t == "u32" for _, t in fs):
-        return "S4 32", {"x": ("u32", "s0"), "y": ("u32", "s1"), "z": ("u32", "s2"), "w": ("u32", "s3")}, ("S4", 32)
+    if names == ["x", "y", "z", "w"] and all(t in ("u32", "w32") for _, t in fs):
+        return "S4 32", {n: (t, f"s{i}") for i, (n, t) in enumerate(fs)}, ("S4", 32)
     if names == ["x"] and fs[0][1] == "u64":
         return "BitVec 64", {"x": ("u64", None)}, ("SM", 64)
     raise Unsupported(f"state shape {names}")
@@ -134,19 +145,21 @@ def build_unit(repo, crate, fname, common_macros, prims):
     u.file = os.path.join(crate, "src", fname + ".rs")
     return u
 
-def emit_unit(u, order, exclude=()):
-    """returns (lean text, translated fn names, {fn: reason} for the untranslatable ones)"""
+def emit_unit(u, order, exclude=(), helpers=False):
+    """returns (lean text, translated fn names, {fn: reason} for the untranslatable ones).  Definitions are emitted in
+    dependency order (a function whose callee is translated later is retried); with `helpers`, methods of the unit that are
+    not listed are translated too when a listed function calls them."""
     out, done, skipped = [], [], {}
     out.append(f"namespace {u.namespace.split('Rngs.')[1]}")
-    order = [n for n in order if n not in exclude]
+    listed = [n for n in order if n not in exclude]
     for n in exclude:
         if n in u.methods:
             skipped[n] = exclude[n] if isinstance(exclude, dict) else "excluded"
-    for name in order:
-        if name not in u.methods:
-            continue
+    pending = [n for n in listed if n in u.methods]
+    texts, waiting = {}, {}
+    def attempt(name):
         try:
-            if name == "fill_bytes":
+            if name == "fill_bytes" and not helpers:
                 d = translate_fill_bytes(u, u.methods[name])
             elif name == "from_seed":
                 d = translate_fn(u, name)
@@ -158,20 +171,72 @@ def emit_unit(u, order, exclude=()):
                     d = d.replace("def seed_from_u64 ", "def seed_from_u64 (rec_from_seed : List U8 → " + u.sinfo.lean + ") ", 1)
             else:
                 d = translate_fn(u, name)
-            missing = [m for m in re.findall(re.escape(u.namespace) + r"\.(\w+)", d) if m not in done and m != name]
-            if missing:
-                skipped[name] = f"depends on {missing[0]}, which is not translated"
-                continue
-            out.append(d)
-            done.append(name)
+            ia = rs2lean.LAST.get((u.name, name), {}).get("ignored_asserts")
+            if ia:
+                ASSERTS.setdefault(u.name, {})[name] = ia
+            texts[name] = d
+            DEFTEXT[(u.name, name)] = d
+            return None
         except Unsupported as e:
-            skipped[name] = str(e)
+            return str(e)
         except Exception as e:
-            skipped[name] = f"translator error: {e!r}"
+            return f"translator error: {e!r}"
+    for name in pending:
+        err = attempt(name)
+        if err is not None:
+            skipped[name] = err
+    # unlisted helper methods that a translated function calls
+    if helpers:
+        grew = True
+        while grew:
+            grew = False
+            for d in list(texts.values()):
+                for m in re.findall(re.escape(u.namespace) + r"\.(\w+)", d):
+                    if m not in texts and m not in skipped and m in u.methods and m not in exclude:
+                        err = attempt(m)
+                        if err is not None:
+                            skipped[m] = err
+                        grew = True
+    # emission in dependency order
+    remaining = dict(texts)
+    progress = True
+    while remaining and progress:
+        progress = False
+        for name in list(dict.fromkeys(n for n in (listed + sorted(remaining)) if n in remaining)):
+            if name not in remaining:
+                continue
+            d = remaining[name]
+            deps = [m for m in re.findall(re.escape(u.namespace) + r"\.(\w+)", d) if m != name]
+            deps += [n for n, full in getattr(u, "extern", {}).items() if n in exclude and re.search(re.escape(full) + r"\b", d)]
+            bad = [m for m in deps if m not in done and m not in remaining]
+            if bad:
+                skipped[name] = f"depends on {bad[0]}, which is not translated"
+                del remaining[name]
+                progress = True
+            elif all(m in done for m in deps):
+                out.append(d)
+                done.append(name)
+                del remaining[name]
+                progress = True
+    for name in remaining:
+        skipped[name] = "call cycle among the translated functions"
     out.append(f"end {u.namespace.split('Rngs.')[1]}")
     return "\n".join(out), done, skipped
 
 ORDER = ["next_u32", "next_u64", "fill_bytes", "jump", "long_jump", "from_seed", "seed_from_u64"]
+DEFTEXT = {}      # (unit, fn) -> text of the translated definition
+def shape_is_pinned(G, fn):
+    """is the current translation of G.fn textually the one the shape lemma of Rngs/Lib/ExtTieShapes.lean was generated from?
+    (then `Ext.G.fn … = ExtShape.G.fn …` is closed by `rfl` at once; otherwise the generic proof path is emitted instead)"""
+    try:
+        pinned = json.load(open(os.path.join(os.path.dirname(os.path.dirname(os.path.abspath(__file__))), "lean", "Rngs", "Lib", "ExtTieShapes.json")))
+    except Exception:
+        return False
+    d = DEFTEXT.get((G, fn))
+    return d is not None and pinned.get(f"{G}.{fn}") == hashlib.sha256(d.encode()).hexdigest()
+
+HELPERS = {}      # unit -> translated functions that have no correspondence statement (helpers extracted by a refactoring)
+ASSERTS = {}      # unit -> fn -> assert!/debug_assert! statements that were skipped (panics are C14's subject)
 
 def generate_defs(repo, exclude=None):
     exclude = exclude or {}
@@ -236,7 +301,91 @@ PROOFS = {
     # tactic scripts tried in order (first | …); `rfl` is by far the common case: the translation unfolds to the model
     "next_u32": "ext_tie_step", "next_u64": "ext_tie_step", "fill_bytes": "ext_tie_fill", "jump": "ext_tie_jump",
     "long_jump": "ext_tie_jump", "from_seed": "ext_tie_seed", "seed_from_u64": "ext_tie_seed",
+    # rand_hc / rand_isaac: see the proof scripts below (bridge lemmas: Rngs/Lib/ExtTieBlock.lean, ExtTieShapes.lean)
+    "hc_step_p": "ext_tie_hc_step", "hc_step_q": "ext_tie_hc_step",
+    "isaac_ind": "ext_tie_isaac_ind", "isaac_rngstep": "ext_tie_isaac_step", "isaac_mix": "ext_tie_isaac_step",
 }
+
+# ---- proof scripts of the block generators.  Each is `first | fast path | generic path`: the fast path rewrites the model side
+# with the shape lemma of the pinned translation (ExtTieShapes.lean) and closes syntactically; the generic path unfolds both
+# sides (`simp only`) and is what survives harmless rewrites of the source.
+def _unf(G):
+    """simp arguments that unfold the helper functions of unit G"""
+    return "".join(f", Ext.{G}.{h}" for h in HELPERS.get(G, []))
+
+def _hc_helpers():
+    return ("\n  have hp : Ext.Hc128Core.step_p = Hc128.stepPC := by\n    funext st i i511 i3 i10 i12; exact ExtTie.Hc128Core.step_p st i i511 i3 i10 i12"
+            "\n  have hq : Ext.Hc128Core.step_q = Hc128.stepQC := by\n    funext st i i511 i3 i10 i12; exact ExtTie.Hc128Core.step_q st i i511 i3 i10 i12")
+
+def proof_hc_generate(name):
+    if shape_is_pinned("Hc128Core", "generate"):
+        return ("\n  intro st results" + _hc_helpers() +
+                "\n  exact (show Ext.Hc128Core.generate st results = ExtShape.Hc128Core.generate Ext.Hc128Core.step_p Ext.Hc128Core.step_q st results"
+                "\n           from rfl).trans (by rw [hp, hq]; exact ExtShape.Hc128Core.generate_eq st results)")
+    return ("\n  intro st results" + _hc_helpers() +
+            "\n  rw [Hc128.generate_hoisted]"
+            "\n  simp only [Ext.Hc128Core.generate" + _unf("Hc128Core") + ", hp, hq, Hc128.blockWith, Hc128.TABLE, List.foldl, Hc128.idx, Hc128.bases, Hc128.USIZE]"
+            "\n  split <;> simp only [Hc128.stepPC_counter, Hc128.stepQC_counter, Nat.add_zero]")
+
+def proof_hc_sixteen(name):
+    if shape_is_pinned("Hc128Core", "sixteen_steps"):
+        return ("\n  intro st" + _hc_helpers() +
+                "\n  exact (show Ext.Hc128Core.sixteen_steps st = ExtShape.Hc128Core.sixteen_steps Ext.Hc128Core.step_p Ext.Hc128Core.step_q st"
+                "\n           from rfl).trans (by rw [hp, hq]; exact ExtShape.Hc128Core.sixteen_steps_eq st)")
+    return ("\n  intro st" + _hc_helpers() +
+            "\n  rw [Hc128.sixteenSteps_hoisted]"
+            "\n  simp only [Ext.Hc128Core.sixteen_steps" + _unf("Hc128Core") + ", hp, hq, Hc128.feedWith, Hc128.TABLE, List.foldl, Hc128.idx, Hc128.bases, Hc128.USIZE]"
+            "\n  split <;> simp only [Hc128.stepPC_counter, Hc128.stepQC_counter, Nat.add_zero]")
+
+def proof_hc_init(name):
+    return ("\n  intros"
+            "\n  have h16 : Ext.Hc128Core.sixteen_steps = Hc128.sixteenSteps := funext ExtTie.Hc128Core.sixteen_steps"
+            "\n  simp only [Ext.Hc128Core.init" + _unf("Hc128Core") + ", ExtTie.Hc128Fns.f1, ExtTie.Hc128Fns.f2, h16, Hc128.init, foldl_range'_add, ← BitVec.ofNat_add,"
+            "\n    Hc128.expandAt, Nat.reduceAdd, Nat.reduceSub, List.take, List.drop, List.cons_append, List.nil_append, List.foldl_cons,"
+            "\n    List.foldl_nil, BitVec.ofNat_eq_ofNat]")
+
+def proof_hc_from_seed(name):
+    return ("\n  intro seed"
+            "\n  simp only [Ext.Hc128Core.from_seed" + _unf("Hc128Core") + ", ExtTie.Hc128Core.init]"
+            "\n  rfl")
+
+def proof_isaac(fn):
+    def f(name):
+        G = name.split(".")[0]
+        w = 64 if "64" in G else 32
+        if fn == "generate":
+            return (f"\n  intro st results"
+                    f"\n  have hr : Ext.{G}.rngstep = Isaac.rngstepT Isaac.params{w} := by"
+                    f"\n    funext mem results mix a b base m m2; exact ExtTie.{G}.rngstep mem results mix a b base m m2"
+                    f"\n  exact (show Ext.{G}.generate st results = ExtShape.{G}.generate Ext.{G}.rngstep st results from rfl).trans"
+                    f"\n    (by rw [hr]; exact ExtShape.{G}.generate_eq st results)")
+        if fn == "init":
+            return (f"\n  intro mem rounds"
+                    f"\n  have hm : Ext.{G}.mix = Isaac.mixT Isaac.params{w} := by"
+                    f"\n    funext a b c d e f g h; exact ExtTie.{G}.mix a b c d e f g h"
+                    f"\n  exact (show Ext.{G}.init mem rounds = ExtShape.{G}.init Ext.{G}.mix mem rounds from rfl).trans"
+                    f"\n    (by rw [hm]; exact ExtShape.{G}.init_eq mem rounds)")
+        if fn in ("from_rng", "try_from_rng"):
+            return (f"\n  intro ρ fill src"
+                    f"\n  simp only [Ext.{G}.{fn}{_unf(G)}, ExtTie.{G}.init, Isaac.coreFromRng{w}, foldl_wr_rd_self]"
+                    f"\n  rfl")
+        # from_seed / seed_from_u64: the translated `init` is replaced by the model's; the key array (`[w(0); RAND_SIZE]` with
+        # the first words stored one by one) is the model's zero-extension `extend` (lemmas Isaac.extend_writes*)
+        return (f"\n  intro x"
+                f"\n  simp only [Ext.{G}.{fn}{_unf(G)}, ExtTie.{G}.init]"
+                f"\n  first | rw [Isaac.extend_writes8] | rw [Isaac.extend_writes4] | rw [Isaac.extend_writes2] | rw [Isaac.extend_writes1] | skip"
+                f"\n  rfl")
+    return f
+
+# the generic paths of the two unrolled 16-step blocks need more than the default budget (only used when the fast path fails)
+HEAVY = {"hc_generate": 2000000, "hc_sixteen_steps": 2000000}
+PROOFS.update({"hc_generate": proof_hc_generate, "hc_sixteen_steps": proof_hc_sixteen, "hc_init": proof_hc_init,
+               "hc_from_seed": proof_hc_from_seed, "isaac_generate": proof_isaac("generate"), "isaac_init": proof_isaac("init"),
+               "isaac_from_seed": proof_isaac("from_seed"), "isaac_seed_from_u64": proof_isaac("seed_from_u64")})
+def _proof_from_rng(name):
+    return proof_isaac(name.split(".")[1])(name)
+PROOFS["isaac_from_rng"] = _proof_from_rng
+
 
 HEADER = """/-
   GENERATED by tools/rs2lean.py from the current sources of the repository — do not edit.
@@ -275,18 +424,36 @@ def generate(repo, exclude=None):
             theorems += jitter_theorems(u, done)
     except Exception as e:
         report["rand_jitter"] = dict(error=repr(e))
-    try:
-        for u, order in build_units_hc(repo):
-            text, done, skipped = emit_unit(u, order, exclude.get(u.name, {}))
-            parts.append(text)
-            report[u.name] = dict(file=u.file, translated=done, skipped=skipped, shape=u.shape, seed_len=u.seed_len)
-            theorems += hc_theorems(u, done)
-    except Exception as e:
-        report["rand_hc"] = dict(error=repr(e))
+    avail = set()
+    for crate, builder, thms in (("rand_hc", build_units_hc, hc_theorems), ("rand_isaac", build_units_isaac, isaac_theorems)):
+        try:
+            for u, order in builder(repo):
+                if u is None:
+                    report[order[0]] = dict(error=order[1])
+                    continue
+                ex = dict(exclude.get(u.name, {}))
+                for n, full in getattr(u, "extern", {}).items():
+                    if full not in avail:
+                        ex[n] = "defined in another unit, where it is not translated"
+                text, done, skipped = emit_unit(u, order, ex, helpers=True)
+                avail |= {f"{u.namespace}.{n}" for n in done}
+                parts.append(text)
+                report[u.name] = dict(file=u.file, translated=done, skipped=skipped, shape=u.shape, seed_len=u.seed_len)
+                if ASSERTS.get(u.name):
+                    report[u.name]["ignored_asserts"] = ASSERTS[u.name]
+                ths = thms(u, done, report[u.name]["skipped"])
+                theorems += ths
+                # translated functions without a statement of their own (extracted helpers): unfolded by the callers' proofs
+                HELPERS[u.name] = [n for n in done if f"{u.name}.{n}" not in {t[0] for t in ths}]
+        except Exception as e:
+            report[crate + (":Hc128Core" if crate == "rand_hc" and "Hc128Fns" in report else "")] = dict(error=repr(e))
     digest = hashlib.sha256("\n".join(parts).encode()).hexdigest()[:16]
     out = [HEADER.format(digest=digest)] + parts + ["\nnamespace ExtTie"]
     for name, stmt, props, fn in theorems:
-        out.append(f"theorem {name} : {stmt} := by {PROOFS[fn]} Ext.{name}")
+        pr = PROOFS[fn]
+        if fn in HEAVY:
+            out.append(f"set_option maxHeartbeats {HEAVY[fn]} in")
+        out.append(f"theorem {name} : {stmt} := by" + (pr(name) if callable(pr) else f" {pr} Ext.{name}"))
     out.append("end ExtTie\nend Rngs\n")
     return "\n".join(out), report, theorems
 
@@ -331,28 +498,236 @@ def build_units_jitter(repo):
     units.append((eu, ["stuck"]))
     return units
 
+def file_consts(f, extra=None):
+    """the integer constants of a file that are constant expressions over literals and earlier constants:
+    ({name: (type, Lean literal)}, {name: value})"""
+    vals, consts = dict(extra or {}), {}
+    for n, (tt, et) in f.consts.items():
+        try:
+            cty = ty_of_tokens(tt)
+            e = rsfront.Parser(et, {}).parse_expr_all()
+        except Exception:
+            continue
+        v = const_eval(e, vals)
+        if v is not None and (cty in INT or cty == "nat"):
+            vals[n] = v
+            consts[n] = (cty, lit_lean(v, cty))
+    return consts, vals
+
+def methods_of(f, sname, skip_traits=("fmt::Debug", "PartialEq", "Eq", "::core::cmp::PartialEq", "::core::cmp::Eq", "Clone")):
+    ms, aliases = {}, {}
+    for (trait, ty, fns, consts), types in zip(f.impls, f.impl_types):
+        if ty != sname or trait in skip_traits:
+            continue
+        for k, v in fns.items():
+            if v.body is not None:
+                if k in ms:
+                    raise Unsupported(f"two functions named {k} for {sname}")
+                ms[k] = v
+        for k, toks in types.items():
+            aliases["Self::" + k] = "".join(t[1] for t in toks)
+    return ms, aliases
+
+def add_nested(methods, parent, names, macros, skip=()):
+    """nested `fn` items of `parent` become functions of the unit (called by their bare name); names=None: all of them"""
+    if parent not in methods:
+        return
+    if names is None:
+        try:
+            stmts, tail = rsfront.parse_body(methods[parent].body, macros)
+        except Exception:
+            return
+        names = [st[1].name for st in stmts if st[0] == "fn" and st[1].name not in skip]
+    for n in names:
+        try:
+            fn = nested_fn(methods[parent], n, macros)
+        except Unsupported:
+            continue
+        if n in methods:
+            raise Unsupported(f"nested fn {n} clashes with another function of the unit")
+        methods[n] = fn
+
 def build_units_hc(repo):
-    """rand_hc: the message-schedule functions f1, f2 (nested in Hc128Core::init)"""
+    """rand_hc: f1, f2 (nested in Hc128Core::init; unit Hc128Fns) and Hc128Core: step_p, step_q, generate, sixteen_steps,
+    init, from_seed.  State = the model's Hc128.Core (t : Array U32, counter : Nat).  Yields (unit, order) or (None, reason)."""
     path = os.path.join(repo, "rand_hc/src/hc128.rs")
     f = rsfront.load(path)
-    init = None
-    for trait, ty, fns, consts in f.impls:
-        if ty == "Hc128Core" and "init" in fns:
-            init = fns["init"]
-    if init is None:
+    consts, vals = file_consts(f)
+    TYCTX["aliases"], TYCTX["consts"] = {}, vals
+    macros = dict(f.macros)
+    methods, aliases = methods_of(f, "Hc128Core")
+    for k, toks in f.types.items():
+        aliases[k] = "".join(t[1] for t in toks)
+    if "init" not in methods:
         raise Unsupported("Hc128Core::init not found")
     ms = {}
     for n in ("f1", "f2"):
         try:
-            ms[n] = nested_fn(init, n, dict(f.macros))
+            ms[n] = nested_fn(methods["init"], n, macros)
         except Unsupported:
             pass
-    u = Unit("Hc128Fns", StructInfo("Hc128Fns", "Unit", {}), ms, {}, dict(f.macros), {}, "Rngs.Ext.Hc128Fns")
-    u.shape, u.seed_len, u.file = ("fn", 32), None, "rand_hc/src/hc128.rs"
-    return [(u, ["f1", "f2"])]
+    fu = Unit("Hc128Fns", StructInfo("Hc128Fns", "Unit", {}), ms, {}, macros, {}, "Rngs.Ext.Hc128Fns")
+    fu.shape, fu.seed_len, fu.file = ("fn", 32), None, "rand_hc/src/hc128.rs"
+    yield fu, ["f1", "f2"]
+    # the core
+    TYCTX["aliases"], TYCTX["consts"] = aliases, vals
+    fields = {n: ty_of_tokens(t) for n, t in f.structs.get("Hc128Core", [])}
+    if fields != {"t": ("arr", "u32", 1024), "counter1024": "nat"}:
+        raise Unsupported(f"the state of Hc128Core is not (t: [u32; 1024], counter1024: usize): {fields}")
+    sinfo = StructInfo("Hc128Core", "Hc128.Core", {"t": (("arr", "u32", 1024), "t"), "counter1024": ("nat", "counter")})
+    prims = {"read_u32_into": prim_read_into(32), "le::read_u32_into": prim_read_into(32), "@bytes_types": ()}
+    cm = dict(methods)
+    for parent in list(methods):
+        add_nested(cm, parent, None, macros, skip=tuple(ms))      # other nested helpers (none on the pinned source)
+    cm.update(ms)              # f1, f2 are called by init; their definitions are those of the unit Hc128Fns
+    u = Unit("Hc128Core", sinfo, cm, consts, macros, prims, "Rngs.Ext.Hc128Core", aliases, vals)
+    u.extern = {n: "Rngs.Ext.Hc128Fns." + n for n in ms}
+    u.shape, u.seed_len, u.file = ("Hc128Core", 32), 32, "rand_hc/src/hc128.rs"
+    yield u, ["step_p", "step_q", "generate", "sixteen_steps", "init", "from_seed"]
 
-def hc_theorems(u, done):
-    return [(f"Hc128Fns.{n}", f"Ext.Hc128Fns.{n} = Hc128.{n}", ["C02"], n) for n in ("f1", "f2") if n in done]
+def sig_is(u, fn, selfkind, params, ret):
+    """does the translated function still have the signature the correspondence statement is written for?
+    params: [(type, is `&mut`)] with Wrapping / plain integers identified; ret: type or None"""
+    sg = u.sigs.get(fn)
+    if sg is None:
+        return False
+    norm = lambda t: ("arr", rs2lean.unwrap_ty(t[1]), t[2]) if isinstance(t, tuple) and t[0] == "arr" else rs2lean.unwrap_ty(t)
+    have = [(norm(t), n in sg["mutref"]) for n, t in sg["params"]]
+    r = sg["ret"]
+    if r == ("named", u.name):
+        r = ("named", "Self")
+    return (sg["selfkind"] or None) == selfkind and have == [(norm(t), m) for t, m in params] and norm(r) == norm(ret)
+
+def guard(u, done, report_skipped, wanted):
+    """functions of `done` whose signature is the expected one; the others keep their translation (callers may use it) but
+    get no correspondence theorem: the function the statement was about no longer exists in that form"""
+    ok = []
+    for fn in done:
+        if fn not in wanted:
+            continue
+        if sig_is(u, fn, *wanted[fn]):
+            ok.append(fn)
+        else:
+            report_skipped[fn] = "signature changed: the correspondence statement does not apply (translated as a helper only)"
+    return ok
+
+def hc_theorems(u, done, skipped=None):
+    skipped = skipped if skipped is not None else {}
+    N, U32, SELF = "nat", "u32", ("named", "Self")
+    if u.name == "Hc128Core":
+        done = guard(u, done, skipped, {
+            "step_p": ("mut", [(N, False)] * 5, U32), "step_q": ("mut", [(N, False)] * 5, U32),
+            "generate": ("mut", [(("arr", U32, 16), True)], None), "sixteen_steps": ("mut", [], None),
+            "init": (None, [(("arr", U32, 8), False)], SELF), "from_seed": (None, [(("arr", "u8", 32), False)], SELF)})
+    if u.name == "Hc128Fns":
+        return [(f"Hc128Fns.{n}", f"Ext.Hc128Fns.{n} = Hc128.{n}", ["C02"], n) for n in ("f1", "f2") if n in done]
+    E, th = "Ext.Hc128Core", []
+    ix = "i i511 i3 i10 i12"
+    for n, m in (("step_p", "stepP"), ("step_q", "stepQ")):
+        if n in done:
+            th.append((f"Hc128Core.{n}", f"∀ st {ix}, {E}.{n} st {ix} = ((Hc128.{m} st.t {ix}).1, {{ st with t := (Hc128.{m} st.t {ix}).2 }})",
+                       ["C02"], "hc_" + n))
+    if "generate" in done:
+        th.append(("Hc128Core.generate", f"∀ st results, {E}.generate st results = Hc128.generate st results", ["C02"], "hc_generate"))
+    if "sixteen_steps" in done:
+        th.append(("Hc128Core.sixteen_steps", f"∀ st, {E}.sixteen_steps st = Hc128.sixteenSteps st", ["C02"], "hc_sixteen_steps"))
+    if "init" in done:
+        n = next((p[1][2] for p in u.sigs["init"]["params"] if is_arr(p[1])), None)
+        if n is not None and len(u.sigs["init"]["params"]) == 1 and is_arr(u.sigs["init"]["params"][0][1], flat=True):
+            xs = " ".join(f"s{i}" for i in range(n))
+            th.append(("Hc128Core.init", f"∀ {xs}, {E}.init {xs} = Hc128.init [{', '.join(f's{i}' for i in range(n))}]", ["C02"], "hc_init"))
+    if "from_seed" in done:
+        th.append(("Hc128Core.from_seed", f"∀ seed, {E}.from_seed seed = Hc128.fromSeedCore seed", ["C02", "C09"], "hc_from_seed"))
+    return th
+
+def isaac_array_alias(repo):
+    """`IsaacArray<T>` (isaac_array.rs) is a wrapper of `[T; RAND_SIZE]` with Deref/DerefMut to that array: translated as the
+    array itself.  Checked here: the struct has the single field `inner: [T; RAND_SIZE]` and deref / deref_mut return it."""
+    f = rsfront.load(os.path.join(repo, "rand_isaac/src/isaac_array.rs"))
+    st = f.structs.get("IsaacArray")
+    if st is None or [(n, "".join(t[1] for t in ty)) for n, ty in st] != [("inner", "[T;RAND_SIZE]")]:
+        raise Unsupported("IsaacArray is not a wrapper of [T; RAND_SIZE]")
+    want = {"deref": "&self.inner", "deref_mut": "&mutself.inner"}
+    seen = {}
+    for trait, ty, fns, consts in f.impls:
+        if ty == "IsaacArray":
+            for k, v in fns.items():
+                if k in want:
+                    seen[k] = "".join(t[1] for t in v.body)
+    if seen != want:
+        raise Unsupported("IsaacArray's Deref / DerefMut are not the field projections")
+    _, vals = file_consts(f)
+    return vals.get("RAND_SIZE")
+
+def build_units_isaac(repo):
+    """rand_isaac: IsaacCore (isaac.rs) and Isaac64Core (isaac64.rs): the nested fns ind, rngstep (in generate), mix (in init),
+    generate, init, from_seed, seed_from_u64.  State = the model's Isaac.Core w.  Yields (unit, order) / (None, (name, reason))."""
+    arr_n = isaac_array_alias(repo)
+    for fname, sname, w in (("isaac", "IsaacCore", 32), ("isaac64", "Isaac64Core", 64)):
+        try:
+            path = os.path.join(repo, "rand_isaac/src", fname + ".rs")
+            f = rsfront.load(path)
+            consts, vals = file_consts(f)
+            if vals.get("RAND_SIZE") != arr_n:
+                raise Unsupported("RAND_SIZE of isaac_array.rs differs")
+            macros = dict(f.macros)
+            aliases = {k: "".join(t[1] for t in toks) for k, toks in f.types.items()}
+            TYCTX["aliases"], TYCTX["consts"] = aliases, vals
+            methods, ali = methods_of(f, sname)
+            aliases.update(ali)
+            for T in (f"u{w}", "Self::Item"):
+                aliases[f"IsaacArray<{T}>"] = f"[{T};RAND_SIZE]"
+            wt, ut = f"w{w}", f"u{w}"
+            fields = {n: ty_of_tokens(t) for n, t in f.structs.get(sname, [])}
+            # Wrapping<uN> or plain uN words (plain + - * are translated as wrapping: overflow panics are C14's subject)
+            ok = list(fields) == ["mem", "a", "b", "c"] and fields["mem"] in (("arr", wt, 256), ("arr", ut, 256)) and \
+                all(fields[k] in (wt, ut) for k in "abc")
+            if not ok:
+                raise Unsupported(f"the state of {sname} is not (mem: [w{w}; 256], a, b, c: w{w}): {fields}")
+            sinfo = StructInfo(sname, f"Isaac.Core {w}", {"mem": (fields["mem"], "mem"), "a": (fields["a"], "a"),
+                                                           "b": (fields["b"], "b"), "c": (fields["c"], "c")})
+            for parent in list(methods):
+                add_nested(methods, parent, None, macros)      # on the pinned source: ind, rngstep (generate), mix (init)
+            prims = {"read_u32_into": prim_read_into(32), "le::read_u32_into": prim_read_into(32),
+                     "read_u64_into": prim_read_into(64), "le::read_u64_into": prim_read_into(64), "@bytes_types": ()}
+            u = Unit(sname, sinfo, methods, consts, macros, prims, f"Rngs.Ext.{sname}", aliases, vals)
+            u.shape, u.seed_len, u.file, u.width = (sname, w), 32, f"rand_isaac/src/{fname}.rs", w
+            yield u, ["ind", "rngstep", "generate", "mix", "init", "from_seed", "seed_from_u64", "from_rng", "try_from_rng"]
+        except Exception as e:
+            yield None, (sname, repr(e))
+
+def isaac_theorems(u, done, skipped=None):
+    skipped = skipped if skipped is not None else {}
+    w, E, G = u.width, f"Ext.{u.name}", u.name
+    P = f"Isaac.params{w}"
+    W, N, SELF = f"u{w}", "nat", ("named", "Self")
+    A = ("arr", W, 256)
+    done = guard(u, done, skipped, {
+        "ind": (None, [(A, False), (W, False), (N, False)], W),
+        "rngstep": (None, [(A, True), (A, True), (W, False), (W, True), (W, True), (N, False), (N, False), (N, False)], None),
+        "mix": (None, [(W, True)] * 8, None), "generate": ("mut", [(A, True)], None),
+        "init": (None, [(A, False), ("u32", False)], SELF), "from_seed": (None, [(("arr", "u8", 32), False)], SELF),
+        "seed_from_u64": (None, [("u64", False)], SELF),
+        "from_rng": (None, [(("named", "implRngCore"), True)], SELF),
+        "try_from_rng": (None, [(("named", "R"), True)], ("named", "Result<Self,R::Error>"))})
+    th = []
+    def add(fn, stmt, props, key=None):
+        if fn in done:
+            th.append((f"{G}.{fn}", stmt, props, key or "isaac_" + fn))
+    add("ind", f"∀ mem v amount, amount < {w} → {E}.ind mem v amount = Isaac.ind mem v amount", ["C03"])
+    add("rngstep", f"∀ mem results mix a b base m m2, {E}.rngstep mem results mix a b base m m2 = "
+                   f"(let s := Isaac.rngstep {P} ⟨mem, results, a, b⟩ mix base m m2; (s.mem, s.results, s.a, s.b))", ["C03"])
+    add("mix", f"∀ a b c d e f g h, {E}.mix a b c d e f g h = "
+               f"(let o := {P}.mix ⟨a, b, c, d, e, f, g, h⟩; (o.a, o.b, o.c, o.d, o.e, o.f, o.g, o.h))", ["C03"])
+    add("generate", f"∀ st results, {E}.generate st results = Isaac.generate {P} st results", ["C03"])
+    add("init", f"∀ mem rounds, {E}.init mem rounds = Isaac.init {P} mem rounds.toNat", ["C03"])
+    add("from_seed", f"∀ seed, {E}.from_seed seed = Isaac.fromSeedCore{w} seed", ["C03", "C09"])
+    add("seed_from_u64", f"∀ x, {E}.seed_from_u64 x = Isaac.seedFromU64Core{w} x", ["C03", "C09"])
+    # the cores' from_rng / try_from_rng (the `unsafe` byte view of the seed array is the primitive rs2lean.FnTr.unsafe_fill);
+    # Isaac.fromRng32_eq_core … (ExtTieBlock) relate coreFromRng to the model's constructors of the wrappers
+    add("from_rng", f"∀ {{ρ : Type}} (fill : TryFill ρ) (src : ρ), {E}.from_rng fill src = Isaac.coreFromRng{w} fill src", ["C03", "C09"], "isaac_from_rng")
+    add("try_from_rng", f"∀ {{ρ : Type}} (fill : TryFill ρ) (src : ρ), {E}.try_from_rng fill src = Isaac.coreFromRng{w} fill src", ["C03", "C09"], "isaac_from_rng")
+    return th
 
 def jitter_theorems(u, done):
     th = []
